@@ -51,25 +51,31 @@ def count_scenario(kind):
     s = Scen()
     f = ip.find(QU + "get_operation_count")
     S = lambda v: SNum(v, "int")
+
+    def geo(n=2):
+      # the layer's own hyper-parameters, symbolic: geometry enters the count only through the output shape (a dilated or
+      # strided kernel still has Kh*Kw taps per output element), so the result must not depend on them (seed c19-8)
+      d = ints(ip, s, ["dilation_%d" % i for i in range(n)] + ["stride_%d" % i for i in range(n)])
+      return {"dilation_rate": tuple(S(v) for v in d[:n]), "strides": tuple(S(v) for v in d[n:]), "padding": "same"}
     if kind in ("QConv2D", "Conv2D", "QConv2DBatchnorm"):
       hi, wi, cig, g, ho, wo, co, kh, kw = ints(ip, s, ["Hi", "Wi", "Cig", "groups", "Ho", "Wo", "Co", "Kh", "Kw"])
       ci = cig * g
-      layer = layer_stub(kind, (None, S(ho), S(wo), S(co)), (S(kh), S(kw), S(cig), S(co)), groups=S(g))
+      layer = layer_stub(kind, (None, S(ho), S(wo), S(co)), (S(kh), S(kw), S(cig), S(co)), groups=S(g), **geo())
       r = run_call(ip, f, [layer, (None, S(hi), S(wi), SNum(ci, "int"))])
       spec = ho * wo * co * kh * kw * cig
     elif kind in ("QConv2DTranspose", "Conv2DTranspose"):
       hi, wi, ci, ho, wo, co, kh, kw = ints(ip, s, ["Hi", "Wi", "Ci", "Ho", "Wo", "Co", "Kh", "Kw"])
-      layer = layer_stub(kind, (None, S(ho), S(wo), S(co)), (S(kh), S(kw), S(co), S(ci)))
+      layer = layer_stub(kind, (None, S(ho), S(wo), S(co)), (S(kh), S(kw), S(co), S(ci)), **geo())
       r = run_call(ip, f, [layer, (None, S(hi), S(wi), S(ci))])
       spec = hi * wi * ci * kh * kw * co
     elif kind in ("QConv1D", "Conv1D"):
       ti, ci, to, co, k = ints(ip, s, ["Ti", "Ci", "To", "Co", "K"])
-      layer = layer_stub(kind, (None, S(to), S(co)), (S(k), S(ci), S(co)))
+      layer = layer_stub(kind, (None, S(to), S(co)), (S(k), S(ci), S(co)), **geo(1))
       r = run_call(ip, f, [layer, (None, S(ti), S(ci))])
       spec = to * co * k * ci
     elif kind in ("QDepthwiseConv2D", "DepthwiseConv2D"):
       hi, wi, ci, dm, ho, wo, kh, kw = ints(ip, s, ["Hi", "Wi", "Ci", "depth_multiplier", "Ho", "Wo", "Kh", "Kw"])
-      layer = layer_stub(kind, (None, S(ho), S(wo), SNum(ci * dm, "int")), (S(kh), S(kw), S(ci), S(dm)))
+      layer = layer_stub(kind, (None, S(ho), S(wo), SNum(ci * dm, "int")), (S(kh), S(kw), S(ci), S(dm)), **geo())
       r = run_call(ip, f, [layer, (None, S(hi), S(wi), S(ci))])
       spec = ho * wo * kh * kw * ci * dm
     elif kind in ("QDense", "Dense"):
